@@ -87,6 +87,8 @@ inductive S where
   | deferCall (f : String)
   /-- `for _, x := range ctx.Characters(e) { body }`: the characters a cluster is drawn as (known by their widths) -/
   | rangeDrawn (x : String) (e : E) (body : B)
+  /-- `for i, x := range e { body }` over characters -/
+  | rangeIdx (i x : String) (e : E) (body : B)
   /-- a call whose effect is outside the editor's state (writing a cell of the surface) -/
   | effect (what : String)
   | unknown (src : String)
@@ -111,7 +113,7 @@ def S.hasUnknown : S → Bool
   | .assign _ e | .addAssign _ e | .subAssign _ e | .write _ e | .ret e => e.hasUnknown
   | .ite c t e => c.hasUnknown || t.hasUnknown || e.hasUnknown
   | .loop c p b => c.hasUnknown || p.hasUnknown || b.hasUnknown
-  | .range _ e b | .rangeDrawn _ e b => e.hasUnknown || b.hasUnknown
+  | .range _ e b | .rangeDrawn _ e b | .rangeIdx _ _ e b => e.hasUnknown || b.hasUnknown
   | .exprCall _ a b | .assignCall _ _ a b | .retCall _ a b => a.hasUnknown || b.hasUnknown
   | .retCallPair _ a b c => a.hasUnknown || b.hasUnknown || c.hasUnknown
   | _ => false
@@ -185,6 +187,8 @@ structure Ctx (A : Type) where
   drawW : List A → List Int := fun _ => []
   /-- `unicode.IsLetter`, `unicode.IsNumber` of a code point -/
   isLetter : A → Bool := fun _ => false
+  /-- `Width` of a character of the content -/
+  charW : List A → Int := fun _ => 0
   isNumber : A → Bool := fun _ => false
 
 def cmpI (op : String) (x y : Int) : V A :=
@@ -309,7 +313,7 @@ def evalE [DecidableEq A] (cx : Ctx A) (env : Env A) : E → V A
     else if f = "unicode.IsNumber" then (match evalE cx env a with | .str [r] => .bool (cx.isNumber r) | _ => .err "unicode.IsNumber")
     else .err ("call in expression: " ++ f)
   | .pair a b => .pair (evalE cx env a) (evalE cx env b)
-  | .width a => (match evalE cx env a with | .num w => .num w | _ => .err "Width")
+  | .width a => (match evalE cx env a with | .num w => .num w | .str c => .num (cx.charW c) | _ => .err "Width")
   | .tt => .bool true
   | .ff => .bool false
   | .fst a => (match evalE cx env a with | .pair x _ => x | _ => .err "first result")
@@ -354,6 +358,15 @@ def vSize (cl : List A → List (List A)) : V A → Nat
 def envSize (cl : List A → List (List A)) : Env A → Nat
   | [] => 0
   | (_, v) :: r => vSize cl v + envSize cl r
+
+/-- `for i, x := range l { body }` from index `k` on -/
+def rangeIdxN (i x : String) (body : Env A → Res A) : Int → List (V A) → Env A → Res A
+  | _, [], env => .ok env
+  | k, c :: rest, env =>
+    match body (setV x c (setV i (.num k) env)) with
+    | .ok env' | .cont env' => rangeIdxN i x body (k + 1) rest env'
+    | .brk env' => .ok env'
+    | r => r
 
 /-- A call statement / call on the right of an assignment: the result and the new environment. -/
 def doCall [DecidableEq A] (cx : Ctx A) (env : Env A) (f : String) (a b : E) : Option (Env A × V A) :=
@@ -406,6 +419,10 @@ def execS [DecidableEq A] (cx : Ctx A) : S → Env A → Res A
     (match evalE cx env e with
      | .str c => rangeN x (fun env => execB cx body env) ((cx.drawW c).map V.num) env
      | _ => .err "range ctx.Characters")
+  | .rangeIdx i x e body, env =>
+    (match evalE cx env e with
+     | .chars l => rangeIdxN i x (fun env => execB cx body env) 0 (l.map V.str) env
+     | _ => .err "range")
   | .effect _, env => .ok env
   | .brk, env => .brk env
   | .cont, env => .cont env
